@@ -160,6 +160,10 @@ class Interp:
         for p, d in fn.defaults.items():
             dv = self.ev(d)
             dv.tags = dict(dv.tags, is_default=True)
+            if isinstance(d, (ast.Dict, ast.List, ast.Set, ast.ListComp, ast.DictComp, ast.SetComp)) or (
+                    isinstance(d, ast.Call) and isinstance(d.func, ast.Name) and d.func.id in ("dict", "list", "set", "defaultdict", "OrderedDict")):
+                # a mutable default is created ONCE, at definition time: it is module-level state shared by all calls
+                dv.tags["module_const"] = f"default of {fn.name}({p}=…)"
             env[p] = dv
         self.fr = saved
         extra_pos = []
@@ -199,6 +203,7 @@ class Interp:
             fr.loops = list(saved.loops)
             fr.handlers = list(saved.handlers)
         fr.param_live = set(params) | set(fn.kwonly)
+        fr.entry_env = dict(env)
         self.fr = fr
         try:
             status = self.run_body(fn.node.body)
@@ -984,6 +989,21 @@ class Interp:
         rec = sum(1 for q in fr.path if q == fn.qual)
         if depth > MAX_DEPTH or rec >= self.ctx.opts.get("rec_limit", 1):
             self.ctx.note(f"call depth/recursion cut at {fn.qual}")
+            if fr.fn is fn and getattr(fr, "entry_env", None):
+                # direct recursion is not unfolded; a parameter keeps its unit from one activation to the next
+                from .values import ueq, ustr
+                ps = [p_ for p_ in fn.params if not (fn.cls and p_ == "self")]
+                bound = dict(kws)
+                for i_, a_ in enumerate(args):
+                    if i_ < len(ps):
+                        bound.setdefault(ps[i_], a_)
+                for p_, a_ in bound.items():
+                    f_ = fr.entry_env.get(p_)
+                    if f_ is None or not isinstance(a_, Val) or not isinstance(a_.unit, dict) or not isinstance(f_.unit, dict):
+                        continue
+                    if not ueq(a_.unit, f_.unit)[0]:
+                        self.type_error(e, "QTY", f"the recursive call passes a quantity in [{ustr(a_.unit)}] for `{p_}`, which this activation "
+                                                  f"received in [{ustr(f_.unit)}]", units=(a_.unit, f_.unit))
             r = self.opaque_call(e, args, kws)
             ev.d["result"] = r
             return r
@@ -1157,16 +1177,34 @@ class Interp:
         c = t.flat().deps_all()
         self._extent_coincidence(s.test, t)
         fr.ctrl.append(fr.ctrl[-1] | c)
+        # correlated branches: a value merged at an EARLIER `if` on the very same test (same text, its names not rebound since) is, inside
+        # the arms of this one, the component assigned under the same outcome (gated phi)
+        gphi = getattr(fr, "gphi", None)
+        if gphi is None:
+            gphi = fr.gphi = {}
+            fr.stored_names = {n.id for n in ast.walk(fr.fn.node) if isinstance(n, ast.Name) and isinstance(n.ctx, (ast.Store, ast.Del))} | {
+                a.arg for f_ in ast.walk(fr.fn.node) if isinstance(f_, (ast.FunctionDef, ast.Lambda)) and f_ is not fr.fn.node
+                for a in f_.args.args}
+        tnames = {n.id for n in ast.walk(s.test) if isinstance(n, ast.Name)}
+        # only tests over names the function never rebinds (parameters, imports) and without calls can be recognised again by their text
+        sig = txt if tnames and not (tnames & fr.stored_names) and not any(isinstance(n, (ast.Call, ast.Attribute, ast.Subscript))
+                                                                         for n in ast.walk(s.test)) else None
+        gated = [(k, gphi[id(v)]) for k, v in fr.env.items() if sig is not None and id(v) in gphi and gphi[id(v)][0] is v
+                 and gphi[id(v)][1] == sig]
         env0, self0 = dict(fr.env), dict(self.ctx.selfenv)
-        fr.guards.append((txt, True, s.test, False, t.flat().data | t.flat().shp))
+        fr.guards.append((txt, True, s.test, False, t.flat().data | t.flat().shp, t.flat().data))
         self.refine(s.test, True)
+        for k, g in gated:
+            fr.env[k] = g[2]
         st1 = self.run_body(s.body)
         env1, self1 = fr.env, self.ctx.selfenv
         if st1 == NORMAL:
             self.emit("branch_exit", s, env={k: v for k, v in env1.items() if v is not env0.get(k)}, arm=True)
         fr.env, self.ctx.selfenv = dict(env0), dict(self0)
-        fr.guards[-1] = (txt, False, s.test, False, t.flat().data | t.flat().shp)
+        fr.guards[-1] = (txt, False, s.test, False, t.flat().data | t.flat().shp, t.flat().data)
         self.refine(s.test, False)
+        for k, g in gated:
+            fr.env[k] = g[3]
         st2 = self.run_body(s.orelse)
         env2, self2 = fr.env, self.ctx.selfenv
         if st2 == NORMAL and s.orelse:
@@ -1181,6 +1219,9 @@ class Interp:
             for k in fr.env:
                 if env1.get(k) is not env0.get(k) or env2.get(k) is not env0.get(k):
                     fr.env[k] = fr.env[k].with_ctrl(c)
+                    a_, b_ = env1.get(k), env2.get(k)
+                    if sig is not None and a_ is not None and b_ is not None and a_ is not b_:
+                        gphi[id(fr.env[k])] = (fr.env[k], sig, a_, b_)
             return NORMAL
         if n1:
             fr.env, self.ctx.selfenv = env1, self1
@@ -1392,7 +1433,8 @@ class Interp:
         if isinstance(t, ast.Attribute):
             if isinstance(t.value, ast.Name) and t.value.id == "self" and fr.env.get("self") is not None \
                     and fr.env["self"].tag("kind") == "self":
-                self.emit("self_store", node, attr=t.attr, val=v)
+                # `self.x = self.x` (the field's own current value, e.g. the untaken side of `new if given else self.x`) changes nothing
+                self.emit("self_store", node, attr=t.attr, val=v, noop=(self.ctx.selfenv.get(t.attr) is v))
                 if v.tag("kind") in ("dict", "list", "set"):
                     v.tags["self_container"] = t.attr          # (the same object may also be bound to a local name: cache = self._c = {})
                 self.ctx.selfenv[t.attr] = v.with_ctrl(c)
